@@ -125,10 +125,19 @@ def retry_layouts(tier):
 
 def expand(case, olds, news):
     cap = case.ref_capacity()
-    o = sorted({x for x in olds if x <= cap})
-    n = sorted({(cap if x == 'cap' else x) for x in news
-                if x == 'cap' or x <= cap})
-    return o, n
+    o = {x for x in olds if x <= cap}
+    n = {(cap if x == 'cap' else x) for x in news if x == 'cap' or x <= cap}
+    if case.kind in ('T1', 'T2'):
+        # message (and terminator) ending exactly at a 16-byte boundary of
+        # the tag memory - where a reader's next READ / block load starts -
+        # as old and as new length (same-length rewrites included)
+        off = case.lay0.ndef_off
+        for b in (off + 2 + 15) // 16 * 16, (off + 2 + 15) // 16 * 16 + 16:
+            L = b - off - 2
+            if 0 < L <= min(cap, 254):
+                o.add(L)
+                n.add(L)
+    return sorted(o), sorted(n)
 
 
 def messages(cid, old_len, new_len):
